@@ -28,6 +28,9 @@ CORPUS = [
     ({"k1": [1, 2], "k2": {"x": 1, "y": 2, "z": 3}, "k3": "s", "k4": None, "k5": 5}, {"k2": {"y": 2, "w": 0}, "k9": 1}),
     ([{"a": 1, "b": 2, "c": 3, "d": 4}, {"e": 5, "f": 6, "g": 7}], [{"b": 2}, {"h": 1, "e": 5}]),
     ({"one": "1", "two": "2", "three": "3", "four": "4"}, {"five": "5", "six": "6", "seven": "7"}),
+    ({"same1": "v1", "same2": "v2", "same3": "v3", "same4": "v4", "same5": "v5", "old": "x"},
+     {"same1": "v1", "same2": "v2", "same3": "v3", "same4": "v4", "same5": "v5", "new": "y"}),
+    ([{"u": "a", "v": "b", "w": "c", "x": "d", "gone": 1}, ["s1", "s2"]], [{"u": "a", "v": "b", "w": "c", "x": "d", "come": 2}, ["s1", "s3"]]),
 ]
 FLAGSETS = [[], ['-k'], ['--dict-strategy', 'match'], ['-k', '-l'], ['-e', '-k'], ['-d'], ['-k', '-j']]
 
